@@ -81,6 +81,7 @@ def genHex15 (seed : Nat) (maxLen : Nat) (randomCases : Nat) : Array String := I
       let (r', x) := rng.below top
       rng := r'
       out := out.push s!"hex ofint {w} {x}"
+  out := out.push "hex empty"
   out := out.push "hex ofbool 0"
   out := out.push "hex ofbool 1"
   -- text: from_str_bytes / to_utf8. Boundary code points of every encoded width, then byte strings that are
